@@ -213,8 +213,7 @@ def parseInputs (parts : List (List String)) (h : GHeap) : Option (List GVal × 
       | _ => none) (some ([], h))
 
 structure OSt where
-  σ : GStore
-  results : List (Option GVal)
+  c : CState
   verd : List String
   firsts : List (String × String)
   fresh : Bool
@@ -227,35 +226,26 @@ def ownRun (m : Nat) (steps : List String) (fam : List GSchema) (inputs : List G
     if s.startsWith "P" then
       match ((s.drop 1).copy).splitOn "." with
       | [js, is] =>
-        match fam[js.toNat!]?, inputs[is.toNat!]? with
-        | some sch, some inp =>
-          let c := copy true gdepth st.σ inp            -- the caller builds an equal input out of new cells
-          let r := parseS sch c.1 c.2
-          let key : String := (s.drop 1).copy
-          match r.2 with
-          | some v =>
-            let tok := s!"a{serHash (ser gdepth r.1.heap v)}"
-            let cells := reach gdepth r.1.heap v
-            let fr := disjoint cells owned &&
-              st.results.all (fun o => match o with | some o => disjoint cells (reach gdepth r.1.heap o) | none => true)
-            match st.firsts.find? (fun p => p.1 == key) with
-            | some p => { st with σ := r.1, results := st.results ++ [some v], fresh := st.fresh && fr,
-                                  verd := st.verd ++ [if p.2 == tok then "same" else "CHANGED"] }
-            | none => { st with σ := r.1, results := st.results ++ [some v], fresh := st.fresh && fr,
-                                firsts := st.firsts ++ [(key, tok)] }
-          | none =>
-            match st.firsts.find? (fun p => p.1 == key) with
-            | some p => { st with σ := r.1, results := st.results ++ [none], verd := st.verd ++ [if p.2 == "r" then "same" else "CHANGED"] }
-            | none => { st with σ := r.1, results := st.results ++ [none], firsts := st.firsts ++ [(key, "r")] }
-        | _, _ => st
+        -- the store and the results move exactly as `Gozod.Graph.stepC` (the function the theorems are about) says
+        let c' := stepC fam inputs st.c (.parse js.toNat! is.toNat!)
+        if c'.results.length == st.c.results.length then st else
+        let key : String := (s.drop 1).copy
+        let (tok, fr) := match c'.results.getLast? with
+          | some (some v) =>
+            let cells := reach gdepth c'.σ.heap v
+            (s!"a{serHash (ser gdepth c'.σ.heap v)}",
+             disjoint cells owned &&
+              st.c.results.all (fun o => match o with | some o => disjoint cells (reach gdepth c'.σ.heap o) | none => true))
+          | _ => ("r", true)
+        match st.firsts.find? (fun p => p.1 == key) with
+        | some p => { st with c := c', fresh := st.fresh && fr, verd := st.verd ++ [if p.2 == tok then "same" else "CHANGED"] }
+        | none => { st with c := c', fresh := st.fresh && fr, firsts := st.firsts ++ [(key, tok)] }
       | _ => st
     else
       match (s.drop 1).toNat? with
-      | some j => match st.results[j]? with
-        | some (some v) => { st with σ := mutateAll st.σ v }
-        | _ => st
-      | none => st) { σ := σ0, results := [], verd := [], firsts := [], fresh := true }
-  let same := lookOwned st.σ == before
+      | some j => { st with c := stepC fam inputs st.c (.mutate j) }
+      | none => st) { c := { σ := σ0, results := [] }, verd := [], firsts := [], fresh := true }
+  let same := lookOwned st.c.σ == before
   s!"{",".intercalate st.verd}|{if st.fresh then "fresh" else "ALIASED"}|{if same then "schema-same" else "schema-written"}|{",".intercalate (st.firsts.map (·.2))}"
 
 def ownHandle (m : Nat) (rest : List String) : String :=
